@@ -4,7 +4,7 @@ from ..rules import geometry, codec, status
 
 def run(ck):
     P = facts.load()
-    ck.not_decided = ('not decided: that each composite routine writes only inside (dest_x, dest_y, width, height); that pixman_region32_intersect computes the intersection (C05).')
+    ck.not_decided = ('not decided: that each composite routine writes only inside (dest_x, dest_y, width, height) beyond the byte-budget discipline of the fill/blt primitives; that pixman_region32_intersect computes the intersection (C05).')
     geometry.r1_clip_sources(ck, P)
     geometry.r2_raw_writers_bounded(ck, P)
     geometry.r3_one_call_per_box(ck, P)
